@@ -8,6 +8,8 @@ import Knee.Model.DetectM
 import Knee.Model.Metrics
 import Knee.Model.Geometry
 import Knee.Model.Hull
+import Knee.Model.GlobalCost
+import Knee.Model.ClusterFilter
 /-
 Correspondence driver.  `lake env lean --run Driver.lean` (or the compiled `driver` exe).
 Harness → driver : `CALL <fn> <arg> <arg> …`
@@ -77,6 +79,17 @@ def pt2 (s : String) : M P2 := do
   match ← orErr (parseList? parseRat? s) "point" with
   | [a, b] => pure (a, b)
   | _ => throw "point needs two coordinates"
+
+def parseKind (s : String) : MKind :=
+  match s with
+  | "r2" => .r2 | "rmspe" => .rmspe | "rmsle" => .rmsle | "rpd" => .rpd | _ => .smape
+
+def lookupPair (tbl : List ((Nat × Nat) × Rat)) (l r : Nat) : Rat :=
+  ((tbl.find? fun e => e.1 == (l, r)).map (·.2)).getD 0
+
+/-- groups given on the wire as `a,b;c;d,e` -/
+def parseGroupScores (s : String) : Option (List (List Rat)) :=
+  if s = "-" then some [] else (s.splitOn ";").mapM (parseList? parseRat?)
 
 def dispatch (out inp : IO.FS.Stream) (fn : String) (args : List String) : M String := do
   match fn, args with
@@ -235,6 +248,76 @@ def dispatch (out inp : IO.FS.Stream) (fn : String) (args : List String) : M Str
     | "upper" => pure (showNats (hullUpper pt xs.length))
     | "graham" => pure (showNats (grahamScan (xs.zip ys)))
     | _ => throw "unknown hull"
+  | "gcost", [kind, n, tss, red, errs] =>
+    let n ← orErr (parseNat? n) "n"
+    let tss ← orErr (parseRat? tss) "tss"
+    let red ← orErr (parseList? parseNat? red) "red"
+    let errs ← orErr (parseList? parseRat? errs) "errs"
+    let tbl := (pairsOf red).zip errs
+    pure (showRat (gcostQ (parseKind kind) n tss (lookupPair tbl) red))
+  | "gshared", [kind, n, tss, queries, tblS] =>
+    -- queries `0,3,6;0,3,5,6`, table `l:r:num/den,...` for every pair that can occur
+    let n ← orErr (parseNat? n) "n"
+    let tss ← orErr (parseRat? tss) "tss"
+    let qs ← orErr ((queries.splitOn ";").mapM (parseList? parseNat?)) "queries"
+    let ents ← orErr (parseList? (fun e => match e.splitOn ":" with
+      | [l, r, v] => do let l ← parseNat? l; let r ← parseNat? r; let v ← parseRat? v; pure ((l, r), v)
+      | _ => none) tblS) "table"
+    let vals := runShared (parseKind kind) n tss (lookupPair ents) [] qs
+    pure (showList showRat vals)
+  | "partial", [kind, y, yh] =>
+    let y ← orErr (parseList? parseRat? y) "y"
+    let yh ← orErr (parseList? parseRat? yh) "yh"
+    pure (showRat (partialQ (parseKind kind) y yh))
+  | "segErrQ", [kind, xs, ys, l, r] =>
+    let xs ← orErr (parseList? parseRat? xs) "xs"
+    let ys ← orErr (parseList? parseRat? ys) "ys"
+    let l ← orErr (parseNat? l) "l"
+    let r ← orErr (parseNat? r) "r"
+    pure (showRat (segErrQ (parseKind kind) xs ys l r))
+  | "grmseSq", [xs, ys, red] =>
+    let xs ← orErr (parseList? parseRat? xs) "xs"
+    let ys ← orErr (parseList? parseRat? ys) "ys"
+    let red ← orErr (parseList? parseNat? red) "red"
+    pure (showRat (grmseSq (segErrQ .r2 xs ys) xs.length red))
+  | "mip", [xs, ys, red] =>
+    let xs ← orErr (parseList? parseRat? xs) "xs"
+    let ys ← orErr (parseList? parseRat? ys) "ys"
+    let red ← orErr (parseList? parseNat? red) "red"
+    let rss := segErrQ .r2 xs ys
+    let n := xs.length
+    let args := grmseSq rss n red :: (List.range (red.length - 2)).map fun i => grmseSq rss n (deleteAt red (i + 1))
+    let vals ← args.mapM fun a => askRat out inp s!"sqrt {showRat a}"
+    let tbl := args.zip vals
+    let sq := fun (q : Rat) => ((tbl.find? fun e => e.1 == q).map (·.2)).getD 0
+    let r := mipQ sq rss n red
+    pure (showRat r.1 ++ " " ++ showRat r.2)
+  | "cluster_filter", [mode, labels, knees, scores] =>
+    let labels ← orErr (parseList? parseNat? labels) "labels"
+    let knees ← orErr (parseList? parseNat? knees) "knees"
+    let sc ← orErr (parseGroupScores scores) "scores"
+    let groups := groupByLabels labels knees
+    let tbl := groups.zip sc
+    let score := fun (c : List Nat) => ((tbl.find? fun e => e.1 == c).map (·.2)).getD []
+    match mode with
+    | "rank" => pure (showNats (clusterFilter score labels knees))
+    | "corners" => pure (showNats (clusterFilterCorners score labels knees))
+    | _ => throw "mode"
+  | "cluster_filter_hull", [labels, knees, hull, errs] =>
+    let labels ← orErr (parseList? parseNat? labels) "labels"
+    let knees ← orErr (parseList? parseNat? knees) "knees"
+    let hull ← orErr (parseList? parseNat? hull) "hull"
+    let sc ← orErr (parseGroupScores errs) "errs"
+    let groups := groupByLabels labels knees
+    let tbl := groups.zip sc
+    let herr := fun (c : List Nat) (j : Nat) =>
+      let row := ((tbl.find? fun e => e.1 == c).map (·.2)).getD []
+      ((c.zip row).find? fun e => e.1 == j).map (·.2) |>.getD 0
+    pure (showNats (clusterFilterHull hull herr labels knees))
+  | "groups", [labels, knees] =>
+    let labels ← orErr (parseList? parseNat? labels) "labels"
+    let knees ← orErr (parseList? parseNat? knees) "knees"
+    pure (";".intercalate ((groupByLabels labels knees).map showNats))
   | _, _ => throw s!"unknown call {fn}/{args.length}"
 
 partial def loop (out inp : IO.FS.Stream) : IO Unit := do
